@@ -133,13 +133,26 @@ func (w *world) key() [20]byte {
 	return sha1.Sum([]byte(dumpRoots(rs, true)))
 }
 
+// diffVars names the first variable (in the fixed order a, b, m, s, x, t, ts, tm,
+// st, $value) whose own contents differ; "sharing" when every variable on its
+// own agrees and only the sharing structure between variables differs.
+func diffVars(mr, ir []root) string {
+	for i := range mr {
+		if i < len(ir) && dumpRoots(mr[i:i+1], false) != dumpRoots(ir[i:i+1], false) {
+			return mr[i].name
+		}
+	}
+	return "sharing"
+}
+
 type stepResult struct {
-	src  string // concrete source executed
-	kind string // "", "undet", "outcome", "value", "state", "panic", "types"
-	diff string
-	alt  bool
-	mo   outcome
-	ro   implOut
+	where string // which variables differ (state/value divergences)
+	src   string // concrete source executed
+	kind  string // "", "undet", "outcome", "value", "state", "panic", "types"
+	diff  string
+	alt   bool
+	mo    outcome
+	ro    implOut
 }
 
 // step executes one operation on both sides and compares (fast: only executes;
@@ -151,6 +164,10 @@ func (w *world) step(o op, fast bool) stepResult {
 			panic(fmt.Sprintf("c10 machinery: operation %q does not parse: %v", src, err))
 		}
 	}
+	// while x is bound to a typed slot (see machine.taintX) what x itself reads
+	// is not determined by the property: operations through x are executed and
+	// every OTHER variable is compared, but not their outcome or value
+	throughTaintedX := w.m.taintX && stmtUses(o.S, "x")
 	ro := runImpl(w.e, src, w.plain)
 	mo := w.m.exec(o.S, ro.err)
 	r := stepResult{src: src, mo: mo, ro: ro, alt: mo.alt}
@@ -166,7 +183,7 @@ func (w *world) step(o op, fast bool) stepResult {
 		r.diff = fmt.Sprintf("%s: the interpreter panicked (%s); the model says %s", src, ro.panic, outcomeWord(mo.err))
 		return r
 	}
-	if ro.err != mo.err {
+	if ro.err != mo.err && !throughTaintedX {
 		r.kind = "outcome"
 		r.diff = fmt.Sprintf("%s: model %s, implementation %s", src, outcomeWord(mo.err), implWord(ro))
 		return r
@@ -178,7 +195,7 @@ func (w *world) step(o op, fast bool) stepResult {
 		r.diff = src + ": " + problem
 		return r
 	}
-	compareVal := !mo.err && mo.hasVal && !mo.valUndet && !(w.m.taintX && mentionsX(o.S))
+	compareVal := !mo.err && !ro.err && mo.hasVal && !mo.valUndet && !throughTaintedX
 	if compareVal {
 		mr = append(mr, root{"$value", mo.val})
 		ir = append(ir, root{"$value", ro.val})
@@ -189,13 +206,37 @@ func (w *world) step(o op, fast bool) stepResult {
 		if compareVal && dumpRoots(mr[:len(mr)-1], false) == dumpRoots(ir[:len(ir)-1], false) {
 			r.kind = "value"
 		}
-		r.diff = fmt.Sprintf("%s (%s): state differs\n--- model\n%s--- implementation\n%s", src, outcomeWord(mo.err), md, id)
+		r.where = diffVars(mr, ir)
+		r.diff = fmt.Sprintf("%s (%s): state differs: %s\n--- model\n%s--- implementation\n%s", src, outcomeWord(mo.err), lineDiff(md, id), md, id)
 		return r
 	}
 	return r
 }
 
-func mentionsX(s stmt) bool { return stmtUses(s, "x") }
+// lineDiff lists the dump lines that only one side has.
+func lineDiff(md, id string) string {
+	ml, il := strings.Split(strings.TrimSpace(md), "\n"), strings.Split(strings.TrimSpace(id), "\n")
+	in := func(l string, ls []string) bool {
+		for _, x := range ls {
+			if x == l {
+				return true
+			}
+		}
+		return false
+	}
+	var parts []string
+	for _, l := range ml {
+		if !in(l, il) {
+			parts = append(parts, "model{"+l+"}")
+		}
+	}
+	for _, l := range il {
+		if !in(l, ml) {
+			parts = append(parts, "impl{"+l+"}")
+		}
+	}
+	return strings.Join(parts, " ")
+}
 
 func outcomeWord(err bool) string {
 	if err {
@@ -267,6 +308,46 @@ func less(a, b []int) bool {
 		}
 	}
 	return len(a) < len(b)
+}
+
+func (r *stepResult) class(o op) string {
+	c := o.Kind + "/" + r.kind
+	if r.where != "" {
+		c += "[" + r.where + "]"
+	}
+	return c
+}
+
+// shrink removes operations (and falls back to configuration 0) as long as the
+// last operation still diverges in the same class; deterministic.
+func shrink(h history, class string) (history, built) {
+	same := func(c history) (built, bool) {
+		b := build(c, true)
+		if b.failed == nil || b.at != len(c.Ops)-1 {
+			return b, false
+		}
+		return b, b.failed.class(alphabet[opByID[c.Ops[len(c.Ops)-1]]]) == class
+	}
+	cur := h
+	curB, _ := same(cur)
+	for changed := true; changed; {
+		changed = false
+		for i := 0; i < len(cur.Ops)-1; i++ {
+			cand := history{Cfg: cur.Cfg}
+			cand.Ops = append(append([]string{}, cur.Ops[:i]...), cur.Ops[i+1:]...)
+			if b, ok := same(cand); ok {
+				cur, curB, changed = cand, b, true
+				break
+			}
+		}
+	}
+	if cur.Cfg != 0 {
+		cand := history{Cfg: 0, Ops: cur.Ops}
+		if b, ok := same(cand); ok {
+			cur, curB = cand, b
+		}
+	}
+	return cur, curB
 }
 
 type node struct {
@@ -439,14 +520,16 @@ func run(c *common.Ctx) *common.Result {
 						res.Cap("a divergence seen with cached syntax trees was not confirmed by plain vm.Execute: " + caseString(nd.cfg, append(append([]string{}, b.srcs...), r.src)))
 						continue
 					}
-					r = *cb.failed
-					cs := caseString(nd.cfg, cb.srcs)
+					res.Add("diverging_transitions", 1)
+					class := cb.failed.class(o)
+					sh, sb := shrink(hh, class)
+					cs := caseString(sh.Cfg, sb.srcs)
 					vmu.Lock()
 					dup := violCases[cs]
 					violCases[cs] = true
 					vmu.Unlock()
 					if !dup {
-						res.Violate(common.Violation{Class: o.Kind + "/" + r.kind, Case: cs, Detail: r.diff, Replay: hh})
+						res.Violate(common.Violation{Class: class, Case: cs, Detail: sb.failed.diff, Replay: sh})
 					}
 					continue // do not extend a history past a divergence
 				}
